@@ -1,4 +1,5 @@
 import Proofs.Attr
+import Proofs.AttrShape
 
 /-!
   C10 — Names are case-insensitive and every spelling addresses one stored value.
@@ -186,5 +187,45 @@ example : delattr [] ['z', 'z'] = ([], .attrError) := by decide
 /-- … and a constructor keyword for a referential attribute is recognised in any spelling -/
 example : (newCore cB [] [] [(['a', '_', 'i', 'd'], .int 1)]) = (⟨[], [(['A', '_', 'I', 'd'], .int 1)]⟩, .ok) ∧
     (newCore cB [] [] [(['A', '_', 'I', 'd'], .int 1)]) = (⟨[], [(['A', '_', 'I', 'd'], .int 1)]⟩, .ok) := by decide
+
+end PyxProps.C10
+
+/-! ==========================================================================================================
+  SOURCE TIE of case-insensitive name handling
+
+  translator/gen_attrshape.py reads `Class.__getattr__ / __setattr__ / __delattr__`, `MetaClass.attribute_type` and
+  `MetaModel.find_metaclass / find_class / define_class` with `ast` on every run and emits their statement structure
+  as IR (lean/Gen/AttrShape.lean): how names are matched, under which spelling `__dict__` is tested, read and written,
+  where `object.__setattr__` (and with it the refusing property of a referential attribute) is reached, which key of
+  the class table is upper-cased.  Anything outside the expected shape raises (broken tie).  Proofs/AttrShape.lean
+  defines ONE generic interpreter; Python's own `object.__getattribute__ / __setattr__` and "the hook runs after the
+  normal lookup failed" are fixed there.  The theorems state that the model of PyxModel/Attr.lean IS the
+  interpretation of the IR generated from the current source.
+  ========================================================================================================== -/
+namespace PyxProps.C10
+open Pyx.Attr Pyx.AShape Pyx.Gen.AttrShape
+
+theorem attribute_access_as_in_source (c : Cls) (d : Dict) (sp : Name) (v : Val) :
+    getattr c d sp = iGetattr getShape c d sp ∧
+    setattr c d sp v = iSetattr setShape c d sp v ∧
+    delattr d sp = iDelattr delMatch d sp ∧
+    attrType c sp = iAttrType attributeTypeMatch c sp :=
+  ⟨getattr_eq c d sp, setattr_eq c d sp v, delattr_eq d sp, attrType_eq c sp⟩
+
+theorem class_table_as_in_source (cs : Classes) (kind : Name) (attrs : List (Name × Name)) :
+    findMetaclass cs kind = iFind findTestKey findReadKey cs kind ∧
+    defineClass cs kind attrs = iDefine defineTestKey defineStoredKind defineStoreKey cs kind attrs :=
+  ⟨findMetaclass_eq cs kind, defineClass_eq cs kind attrs⟩
+
+/-! non-vacuity: the interpreter runs the generated shapes; other shapes are other functions (a write that stored
+    under the GIVEN spelling after overwriting — the original defect —, a duplicate test on the name as given) -/
+example : iGetattr getShape cB dB ['N', 'M'] = .val (.str []) ∧ iGetattr getShape cB dB ['a', '_', 'i', 'd'] = .prop ['A', '_', 'I', 'd'] ∧
+    iSetattr setShape cB dB ['n', 'M'] (.int 5) = ([(['I', 'd'], .int 7), (['N', 'm'], .int 5)], .ok) ∧
+    iSetattr setShape cB dB ['a', '_', 'i', 'd'] (.int 5) = (dB, .metaExc) ∧
+    iDelattr delMatch dB ['I', 'D'] = ([(['N', 'm'], .str [])], .ok) := by decide
+example : iSetattr { setShape with inDict := .dictStore .given } cB dB ['n', 'M'] (.int 5) =
+    ([(['I', 'd'], .int 7), (['N', 'm'], .str []), (['n', 'M'], .int 5)], .ok) := by decide
+example : iDefine .asGiven defineStoredKind defineStoreKey [(['A', 'B'], cB)] ['a', 'b'] [] ≠ none ∧
+    iDefine defineTestKey defineStoredKind defineStoreKey [(['A', 'B'], cB)] ['a', 'b'] [] = none := by decide
 
 end PyxProps.C10
